@@ -398,6 +398,7 @@ def gen_exp_scenario(r, kind=None, dim_max=5):
     elif kind in ("MH", "CWMH", "MALA", "ULA", "NUTS", "PCN") and "initial_point" in k and r.random() < 0.08 \
             and t.get("kind") not in ("boxed", "post_mapped"):
         k["ip_int"] = True
+
     if kind == "MH":
         k["scale"] = round(r.choice([0.05, 0.3, 0.8, 1.0, 2.5]), 3)
         if r.random() < 0.2:
@@ -500,6 +501,8 @@ def build_exp_sampler(ctx, sc, callback=None, target=None):
         k["initial_point"] = np.array(k["initial_point"], float)
         if k.pop("ip_int", False):
             k["initial_point"] = np.round(3 * k["initial_point"]).astype(int)      # an integer-typed start vector
+        if k.pop("ip_f32", False):
+            k["initial_point"] = k["initial_point"].astype(np.float32)              # a single-precision start vector
         if k.pop("ip_funvals", False):
             # the start vector is handed over as a CUQIarray of FUNCTION VALUES (what the test problems' exactSolution is)
             from cuqi.array import CUQIarray
@@ -509,6 +512,7 @@ def build_exp_sampler(ctx, sc, callback=None, target=None):
             k["initial_point"] = CUQIarray(k["initial_point"], geometry=target.geometry)
     k.pop("ip_cuqiarray", None)
     k.pop("ip_int", None)
+    k.pop("ip_f32", None)
     k.pop("ip_funvals", None)
     if isinstance(k.get("scale"), list):
         k["scale"] = np.array(k["scale"], float)
@@ -820,6 +824,7 @@ def build_legacy_sampler(ctx, sc, callback=None):
         target = (lambda x: probe(x))
         k["dim"] = sc["target"]["dim"]
     ip_int = k.pop("ip_int", False)
+    k.pop("ip_f32", None)
     if k.get("x0") is not None:
         k["x0"] = np.array(k["x0"]) if all(isinstance(v, int) for v in k["x0"]) else np.array(k["x0"], float)
         if ip_int:
